@@ -426,12 +426,12 @@ class World:
 class LayoutSim:
     name = "layout"
     distinct_measure = "histories"
-    EXH_QUICK = 7
+    EXH_QUICK = 8
     EXH_THOROUGH = 10
 
     def plan(self, prop, tier):
         if tier == "quick":
-            return [("exhaustive", catalan_cum(self.EXH_QUICK)[-1]), ("sessions", 12000)]
+            return [("exhaustive", catalan_cum(self.EXH_QUICK)[-1]), ("sessions", 30000)]
         return [("exhaustive", catalan_cum(self.EXH_THOROUGH)[-1]), ("sessions", 1500000)]
 
     def batch_size(self, stratum):
